@@ -228,7 +228,10 @@ fn section_codecs(rng: &mut Rng, out: &mut CaseOut, thorough: bool) {
     let mut range_tie_budget: i64 = if thorough { 300 } else { 80 };
     // ---- corpus: the witness of F81 (fixed in /repo) as a regression case, every codec, plus boundary neighbours
     for (vals, lo, hi) in [(vec![10u64, 20, 30], 3u64, 5u64), (vec![10, 20, 30], 3, 9), (vec![10, 20, 30], 3, 10), (vec![10, 20, 30], 0, 0), (vec![7, 7, 7, 7], 0, 6),
-                           (vec![u64::MAX - 1, u64::MAX], 0, u64::MAX - 2), (vec![1u64 << 63, (1 << 63) + 1000], 5, (1 << 63) - 1)] {
+                           (vec![u64::MAX - 1, u64::MAX], 0, u64::MAX - 2), (vec![1u64 << 63, (1 << 63) + 1000], 5, (1 << 63) - 1),
+                           // upper bound >= 2^32 above the minimum on a narrow column (a wrapping cast to u32 would lose rows)
+                           (vec![10, 21, 30, 47, 1000, 65000], 15, 4294967306), (vec![10, 21, 30, 47, 1000, 65000], 0, (5 << 32) + 9), (vec![10, 21, 30, 47, 1000, 65000], 4294967306, 4294967400),
+                           (vec![100, 300, 500, 700], 100, 100 + (200u64 << 32)), (vec![100, 300, 500, 700], 300, (1 << 40) + 17), (vec![7, 8, 9], 8, (1 << 63) + 40)] {
         let n = vals.len();
         for &codec in &codecs {
             let Ok(Some(l)) = guarded(|| serialize_with(&vals, &[codec])) else { continue; };   // linear declines short columns
@@ -290,6 +293,8 @@ fn section_codecs(rng: &mut Rng, out: &mut CaseOut, thorough: bool) {
                 let r1 = if rng.chance(1, 2) { n as u32 } else { rng.range(r0 as u64, n as u64) as u32 };
                 let got = guarded(|| { let mut p = Vec::new(); col.get_row_ids_for_value_range(lo..=hi, r0..r1, &mut p); p });
                 let want: Vec<u32> = (r0..r1).filter(|&i| lo <= vals[i as usize] && vals[i as usize] <= hi).collect();
+                if codec == CodecType::Bitpacked { let win: Vec<u128> = vals.iter().map(|&v| v as u128).collect(); let g = gcd_to_min(&win, mn as u128);
+                    if u32_wrap_sensitive(&win, g, lo as u128, hi as u128) { out.count("range_lookups_sensitive_to_u32_wrap", 1); } }
                 let rdesc = json!({"what": "range lookup on column values", "codec": codec_name(codec), "kind": VAL_KINDS[kind], "n": n, "lo": lo.to_string(), "hi": hi.to_string(), "rows": [r0, r1], "min": mn.to_string(), "vals_head": &vals[..n.min(8)]});
                 match got {
                     Err(p) => out.spec_checked(false, json!({"what": "range lookup panicked", "case": rdesc, "panic": p})),
@@ -347,6 +352,46 @@ fn section_codecs(rng: &mut Rng, out: &mut CaseOut, thorough: bool) {
 }
 
 /// value ranges biased to the column's own values and to its min / max
+pub fn gcd_u128(mut a: u128, mut b: u128) -> u128 { while b != 0 { let r = a % b; a = b; b = r; } a }
+
+/// gcd of the differences to the minimum (1 when all values are equal), as the column statistics compute it
+pub fn gcd_to_min(vals: &[u128], mn: u128) -> u128 {
+    let g = vals.iter().fold(0u128, |g, &v| gcd_u128(g, v - mn));
+    if g == 0 { 1 } else { g }
+}
+
+/// Range bounds around the u32 boundary of the bit-packed range lookup: after subtracting the column minimum
+/// and dividing by the gcd the bound is m * 2^32 + (something small), where a truncating cast to u32 would wrap;
+/// plus the fixed values 5 * 2^32, 2^40 + 17, 2^63 + 40 (absolute and relative to the minimum).
+pub fn u32_boundary_bound(rng: &mut Rng, mn: u128, g: u128, top: u128) -> u128 {
+    let m: u128 = *rng.pick(&[1u128, 1, 1, 2, 5, 255, 256, 65536]);
+    let k: i128 = *rng.pick(&[0i128, 0, 1, 2, 3, 10, 17, 40, -1, -2, 1000, 65000]);
+    let v: u128 = match rng.below(10) {
+        0 => 5u128 << 32,
+        1 => (1u128 << 40) + 17,
+        2 => (1u128 << 63) + 40,
+        3 => mn.saturating_add((1u128 << 40) + 17),
+        4 => mn.saturating_add(5u128 << 32),
+        5 => mn.saturating_add((m << 32).saturating_mul(g)),                       // exactly m * 2^32 steps above the minimum
+        _ => { let base = mn.saturating_add((m << 32).saturating_mul(g)); let off = (k.unsigned_abs()).saturating_mul(if rng.chance(1, 2) { g } else { 1 });
+               if k < 0 { base.saturating_sub(off) } else { base.saturating_add(off) } }
+    };
+    v.min(top)
+}
+
+/// Would a bit-packed reader that casts the transformed upper bound to u32 WITHOUT saturating lose rows on this
+/// lookup?  (measures how well the generators aim at that boundary; reported in the evidence)
+pub fn u32_wrap_sensitive(all: &[u128], g: u128, lo: u128, hi: u128) -> bool {
+    let (Some(&mn), Some(&mx)) = (all.iter().min(), all.iter().max()) else { return false; };
+    if lo > hi || hi < mn || (mx - mn) / g >= (1u128 << 32) { return false; }
+    let a = (lo.saturating_sub(mn) + g - 1) / g;
+    let b = hi.saturating_sub(mn) / g;
+    if a > u32::MAX as u128 { return false; }
+    let b32 = b & 0xFFFF_FFFF;
+    all.iter().any(|&v| lo <= v && v <= hi && !(a <= (v - mn) / g && (v - mn) / g <= b32))
+}
+
+/// value ranges biased to the column's own values, to its min / max and to the u32 boundary of the bit-packed reader
 pub fn gen_range(rng: &mut Rng, vals: &[u64]) -> (u64, u64) {
     let mn = *vals.iter().min().unwrap_or(&0);
     let mx = *vals.iter().max().unwrap_or(&0);
@@ -361,6 +406,14 @@ pub fn gen_range(rng: &mut Rng, vals: &[u64]) -> (u64, u64) {
     match rng.below(10) {
         0 => (a.max(b), a.min(b)),                 // possibly empty range
         1 if mn > 0 => { let hi = rng.below(mn); (rng.below(hi + 1), hi) } // entirely below the minimum
+        2 | 3 | 4 => {
+            // upper (and sometimes lower) bound at the u32 boundary relative to min and gcd
+            let all: Vec<u128> = vals.iter().map(|&v| v as u128).collect();
+            let g = gcd_to_min(&all, mn as u128);
+            let hi = u32_boundary_bound(rng, mn as u128, g, u64::MAX as u128) as u64;
+            let lo = match rng.below(4) { 0 => u32_boundary_bound(rng, mn as u128, g, u64::MAX as u128) as u64, 1 => 0, 2 => mn.saturating_add(rng.below(20)), _ => a.min(b) };
+            (lo.min(hi), hi.max(lo))
+        }
         _ => (a.min(b), a.max(b)),
     }
 }
